@@ -8,6 +8,12 @@ from .common import *
 from .tape import MirrorMismatch, Tape, lazy, m_fy, m_pyshuffle, LogRS
 from cryptorandom.cryptorandom import SHA256
 from permute import core, ksample, utils
+# every result object the library returns is kept with a deep copy taken at return time: it must still read the same after
+# later calls (a distribution that is a view of a module-level block, a p-value object reused by the next call)
+_REC = []
+core = RecordingModule(core, _REC, ["two_sample", "two_sample_shift", "one_sample", "corr", "spearman_corr", "two_sample_core"])
+ksample = RecordingModule(ksample, _REC, ["k_sample", "bivariate_k_sample", "one_way_anova", "two_way_anova"])
+utils = RecordingModule(utils, _REC, ["permute", "permute_within_groups", "permute_rows", "potential_outcomes", "permute_incidence_fixed_sums"])
 
 COQ_HEADER = """From PV Require Import Lib.Base Model.Prng Model.Core Corr.CoreCases.
 Open Scope Q_scope."""
@@ -351,7 +357,7 @@ def shift_coq(sh):
     return "(Some SingleCallable)"
 
 
-def run(c):
+def _run_plain(c):
     f = c["f"]
     if f == "two_sample":
         return run_two(c)
@@ -1449,7 +1455,7 @@ def oracle_real(c, o):
     return None
 
 
-def oracle(c, o):
+def _oracle_plain(c, o):
     return {"two_sample": oracle_two, "one_sample": oracle_one, "corr": oracle_corr, "k_sample": oracle_k, "permute": oracle_permute,
             "pot": oracle_pot, "real": oracle_real, "prng": oracle_prng, "coverage": oracle_coverage, "seq": oracle_seq, "seq2": oracle_seq2, "manyreps": oracle_manyreps}[c["f"]](c, o)
 
@@ -1472,3 +1478,19 @@ def nontrivial(c, o):
 
 def key(c):
     return json.dumps(c, sort_keys=True)
+
+
+def run(c):
+    o = _run_plain(c)
+    if isinstance(o, dict):
+        o["retained_changed"] = retained_changed(_REC)
+    return o
+
+
+def oracle(c, o):
+    if isinstance(o, dict) and o.get("retained_changed"):
+        v = emit({"why": "results kept by the caller changed when later calls were made: " + o["retained_changed"], "cls": "results:p-not-from-dist"})
+        if v: return v
+    if isinstance(o, dict) and "retained_changed" in o:
+        o = {k: v for k, v in o.items() if k != "retained_changed"}
+    return _oracle_plain(c, o)
